@@ -405,6 +405,12 @@ impl ActorCell {
         super::supervision::SupervisionTree::link(self, supervisor)
     }
 
+    /// The link made by `start` for the actor being started (see
+    /// [super::supervision::SupervisionTree::link_starting])
+    pub(crate) fn try_link_starting(&self, supervisor: ActorCell) -> bool {
+        super::supervision::SupervisionTree::link_starting(self, supervisor)
+    }
+
     /// Unlink this [super::Actor] from the supervisor if it's
     /// currently linked (if self's supervisor is `supervisor`)
     ///
